@@ -92,6 +92,8 @@ def mol_stub(it, gm, symbols):
     mol = Obj(ClassV("_Mol", [], gm))
     mol.fields["natm"] = len(symbols)
     mol.fields["atom_symbol"] = Builtin("mol.atom_symbol", lambda ia: symbols[int(ia)])
+    # PySCF: the label without its numeric suffix ("H1" -> "H"); tables of CiderGrids are keyed by the full label
+    mol.fields["atom_pure_symbol"] = Builtin("mol.atom_pure_symbol", lambda ia: symbols[int(ia)].rstrip("0123456789"))
     mol.fields["verbose"] = 0
     mol.fields["stdout"] = None
     return mol
@@ -201,9 +203,10 @@ def unit_from_tabs(ctx):
     pm, gm = setup(it)
     im = it.load_module(IMOD)
     fq = [IMOD + ":AtomicGridsIndexer.from_tabs", IMOD + ":AtomicGridsIndexer.__init__"]
-    symbols = ["A", "B", "A", "B"]
+    # two atoms of one element carrying different labels (and therefore their own grid tables), as PySCF allows ("H1", "H2")
+    symbols = ["A", "B", "A2", "B"]
     mol = mol_stub(it, gm, symbols)
-    nrad = {"A": 3, "B": 2}
+    nrad = {"A": 3, "B": 2, "A2": 2}
     nlm = 4
     rad_loc_tab, ylm_loc_tab, rad_tab, ylm_tab = {}, {}, {}, {}
     H = []
@@ -214,7 +217,7 @@ def unit_from_tabs(ctx):
         rad_loc_tab[s] = np.array(rl, dtype=object)
         ylm_loc_tab[s] = np.array([tm.var("yl%s_%d" % (s, i), "I") for i in range(nrad[s])], dtype=object)
         rad_tab[s] = np.array([tm.var("rad%s_%d" % (s, i)) for i in range(nrad[s])], dtype=object)
-        nyl = {"A": 3, "B": 2}[s]
+        nyl = {"A": 3, "B": 2, "A2": 1}[s]
         ylm_tab[s] = sym_array("ylm%s" % s, (nyl, nlm))
     ix = it.call_method(im.ns["AtomicGridsIndexer"], "from_tabs", [mol, 1, rad_loc_tab, ylm_loc_tab, rad_tab, ylm_tab])
     f = ix.fields
@@ -236,7 +239,7 @@ def unit_from_tabs(ctx):
             ok_ar = ok_ar and int(ar[r0 + r]) == a
         for j in range(ylm_tab[s].shape[0]):
             for lm in range(nlm):
-                if tm.lift(ylm[yoff + j, lm]) is not tm.lift(ylm_tab[s][j, lm]):
+                if yoff + j >= ylm.shape[0] or tm.lift(ylm[yoff + j, lm]) is not tm.lift(ylm_tab[s][j, lm]):
                     ok_ar = False
         off = off + rad_loc_tab[s][nrad[s]]
         yoff += ylm_tab[s].shape[0]
